@@ -835,7 +835,14 @@ def run(ctx):
 def search_failing_input(ctx, broken):
     """A theorem of Props/C13.v no longer checks (typically: a regenerated table in Gen/GvfConst.v fails the
     reflective consistency check).  Look for a record on which the real code violates the round trip."""
-    import random
+    import random, sys
+    from harness.lib import py2coq_search
+    if py2coq_search.is_code_obligation(broken):
+        # code_iterate_pointer_is_model (docs/py2coq.md): the index streams of the correspondence compare exactly
+        # the translated function with the model; run them on the quick budget and return the first disagreement
+        r = py2coq_search.first_disagreement(sys.modules[__name__], ctx, broken)
+        if r:
+            return r
     rng = random.Random(ctx.seed + 1)
     cases = [{'kind': 'wpw', 'rec': gen_record(rng, kind=KINDS[i % len(KINDS)]), 'wf': True} for i in range(450)]
     cases += [{'kind': 'circ_wpw', 'circ': gen_circ(rng), 'wf': True} for _ in range(100)]
